@@ -66,6 +66,11 @@ CLAIMED = {
                 'unregistered names answer -32601; clean views expose exactly their public callables. Correspondence over exhaustive short histories and random deep merges, probed by dispatching every name, '
                 'names one edit away and private member names on both dispatchers.',
                 note='Kernel + standard axioms; dir() order / callable() / __name__ of members are declared per test class (oracle input); D21 (public alias of a private view member) and D24 (Method object in a prefixed registry) are recorded findings.'),
+    'C18': dict(ref='§4 C18', text='Lean theorems over the three _rpc_handle functions: every documented media type passes the gate (tied to REQUEST_CONTENT_TYPES by the constants translator), every other one is answered 415 with an empty log, '
+                'an accepted request is answered with exactly the dispatcher\'s document, the JSON content type and status_by_error(codes) (200 + empty body for nothing), never 500 with well-behaved middlewares (via C01), '
+                'undecodable bodies 400, the integrations coincide. Tied through the aiohttp TestClient, flask test_client and werkzeug Client over media types (documented, charset / case variants, near misses, missing) '
+                'x bodies (valid, invalid, batch, notification, non-UTF-8) x status functions x prefixes.',
+                note='Kernel + standard axioms; the frameworks\' header parsing and routing are inputs (the parsed media type is computed independently by the harness); the Flask JSON-provider shadowing of the encoder (D27) is a recorded finding.'),
     'C20': dict(ref='§4 C20', text='Lean theorems: the queue discipline in closed form (C20_round_robin: first |q| calls in order of addition, every later block of |keep q| calls by the surviving patches in the same order; '
                 'C20_once_exactly_once; C20_round_robin_mod), and the state machine: C20_step (head answers, that queue steps, every other queue and record untouched, the call recorded), add / replace / remove on the current queue, '
                 'request id carried incl. 0 and "", unpatched method -32601, unpatched endpoint passthrough / refused, batches element-wise. Tied by operation / call histories through the real PjRpcMocker '
